@@ -2,7 +2,7 @@
 # Builds the harness once (plain and -race) so that the go build cache is warm; offline.
 export GOFLAGS=-mod=mod GOPROXY=off GOSUMDB=off GOTOOLCHAIN=local
 cd "$(dirname "$0")/harness" || exit 1
-mkdir -p ../evidence/.work/bin
-go build -tags verif -o ../evidence/.work/bin/vprops ./cmd/vprops || exit 1
-go build -race -tags verif -o ../evidence/.work/bin/vprops.race ./cmd/vprops || exit 1
+mkdir -p ../evidence/.work/_bin/repo
+go build -tags verif -o ../evidence/.work/_bin/repo/vprops ./cmd/vprops || exit 1
+go build -race -tags verif -o ../evidence/.work/_bin/repo/vprops.race ./cmd/vprops || exit 1
 echo setup ok
